@@ -344,6 +344,9 @@ func (c *ctx) hypotheses(l, d, r string) {
 			c.r.Notes = append(c.r.Notes, fmt.Sprintf("hypothesis %s fails on %q", name, in))
 		}
 	}
+	// facts about the libraries that the theorems do NOT assume (the repaired code
+	// defends against them); counted for the record only
+	observe := func(name string) { h["observation:"+name]++ }
 	for _, p := range []struct {
 		name string
 		f    func(string) ([]byte, error)
@@ -387,10 +390,10 @@ func (c *ctx) hypotheses(l, d, r string) {
 	}
 	if !bytes.HasSuffix(out, []byte(".")) {
 		if ip6(string(out)) || ip4(string(out)) {
-			note("idna-not-ip", d)
+			observe("idna-output-is-an-ip-literal")
 		}
 		if again, err := toUnicode(string(out)); err != nil || !bytes.Equal(again, out) {
-			note("idna-idempotent", d)
+			observe("idna-not-idempotent")
 		}
 	}
 }
